@@ -352,6 +352,10 @@ fn run_inner(case: &EnvCase, orc: EnvOracles, prop: &str, feat: &mut EnvFeatures
         // credit for what it trades against on arrival
         let mut exact_new: Option<(usize, bool)> = None;
         let pre_step = if orc.invisible || orc.records { Some(env_obs(env.as_ref())) } else { None };
+        // number of order records per asset: read once per step, then counted (every accepted creation must return
+        // exactly the next per-asset id, so the count stays exact; reading the list per instruction is quadratic
+        // in batches of tens of thousands)
+        let mut n_orders: Vec<usize> = (0..n).map(|a| env.get_orders(a).len()).collect();
         for ins in instrs.iter() {
             instr_seen += 1;
             let before = if orc.invisible || orc.grid { Some(env_obs(env.as_ref())) } else { None };
@@ -385,8 +389,11 @@ fn run_inner(case: &EnvCase, orc: EnvOracles, prop: &str, feat: &mut EnvFeatures
                         exact_new = Some((a, *bid));
                     }
                     let on_grid = price.map_or(true, |p| p % case.ticks[a] == 0);
-                    let n_before = env.get_orders(a).len();
+                    let n_before = n_orders[a];
                     let r = env.place_order(a, *bid, v, *trader, *price);
+                    if r.is_ok() {
+                        n_orders[a] += 1;
+                    }
                     match r {
                         Ok(id) => {
                             if (orc.grid || orc.invisible) && !on_grid {
@@ -892,6 +899,20 @@ fn run_inner(case: &EnvCase, orc: EnvOracles, prop: &str, feat: &mut EnvFeatures
                 // timestamps of this step's orders collide with the next step's range?
                 if overfull {
                     feat.cross_step_ts_collision = true;
+                }
+                // C07 on such histories: the book an overfull step leaves behind (records stamped later than its
+                // clock) must survive a snapshot round trip unchanged
+                if !q {
+                    let how = (si % 4) as u8;
+                    match std::panic::catch_unwind(std::panic::AssertUnwindSafe(|| crate::ops::reload_book(env.book(a), how))) {
+                        Ok(Ok(b)) => {
+                            if let Some(d) = diff_obs(&capture(b.as_ref()), p) {
+                                return Err(fail("C05 snapshot of the book after a step does not restore it", si, format!("asset {}: reloaded vs live: {}", a, d)));
+                            }
+                        }
+                        Ok(Err(e)) => return Err(fail("C05 snapshot of the book after a step fails to load", si, format!("asset {}: {}", a, e))),
+                        Err(_) => return Err(fail("C05 snapshot of the book after a step panics on load", si, format!("asset {}: {}", a, crate::engine::last_panic()))),
+                    }
                 }
             }
             if is_drain && si == n_core + 1 && trading {
